@@ -45,8 +45,20 @@ class UpdateExtractor(BaseExtractor):
                     holder.add_write(write_table)
                 tgt_flag = False
 
+            if segment.type == "where_clause":
+                for sq in self.list_subquery(segment):
+                    subqueries.append(sq)
+
             if segment.type == "set_clause_list":
                 for set_clause in segment.get_children("set_clause"):
+                    # SET col = (SELECT ...)
+                    for bracketed in [
+                        b
+                        for e in set_clause.get_children("expression")
+                        for b in e.get_children("bracketed")
+                    ] + set_clause.get_children("bracketed"):
+                        for sq in self.list_subquery(bracketed):
+                            subqueries.append(sq)
                     column_references = set_clause.get_children("column_reference")
                     if len(column_references) == 2:
                         tgt_cqt = extract_column_qualifier(column_references[0])
